@@ -101,6 +101,109 @@ theorem check_leaves_valid (H : Algo → Bytes → Digest) (localClass : Bool) (
   · have := (check_rejects_corrupt H localClass name db st used hc oid o ho hp hgood).2
     rw [this, AList.lookup_erase] at h'; simp at h'
 
+/-! ### adds that fail leave what is there alone -/
+
+theorem foldl_addOne_untouched (localClass : Bool) (name : Algo) (oid : Oid) :
+    ∀ (xs : List (Oid × Option (Bytes × Stamp))) (acc : List Oid × Store × Db),
+      (∀ x ∈ xs, x.1 = oid → x.2 = none) →
+      (xs.foldl (addOne localClass name) acc).2.1.lookup oid = acc.2.1.lookup oid ∧
+      (xs.foldl (addOne localClass name) acc).2.2.lookup oid = acc.2.2.lookup oid := by
+  intro xs
+  induction xs with
+  | nil => intro acc _; exact ⟨rfl, rfl⟩
+  | cons x r ih =>
+    intro acc h
+    obtain ⟨failed, st, db⟩ := acc
+    simp only [List.foldl_cons]
+    have hr := ih (addOne localClass name (failed, st, db) x) (fun y hy => h y (List.mem_cons_of_mem _ hy))
+    have hx : (addOne localClass name (failed, st, db) x).2.1.lookup oid = st.lookup oid ∧
+        (addOne localClass name (failed, st, db) x).2.2.lookup oid = db.lookup oid := by
+      unfold addOne
+      simp only
+      cases hsrc : x.2 with
+      | none => exact ⟨rfl, rfl⟩
+      | some ds =>
+        have hne : x.1 ≠ oid := by
+          intro e
+          have := h x (by simp) e
+          rw [hsrc] at this; cases this
+        obtain ⟨data, s⟩ := ds
+        simp only
+        refine ⟨by rw [AList.lookup_set]; simp [hne], ?_⟩
+        unfold State.save
+        cases (fsOf (AList.set st x.1 { data := data, prot := localClass, stamp := s })).lookup x.1 with
+        | none => rfl
+        | some n => simp only; rw [AList.lookup_set]; simp [hne]
+    exact ⟨hr.1.trans hx.1, hr.2.trans hx.2⟩
+
+/-- **a failed add changes nothing about its object**: in any batch, an object all of whose copies fail keeps exactly
+    the file and the hash-state row it had - the add neither protects it nor vouches for it (what the unrepaired
+    code did for every oid of the batch, F21) -/
+theorem failed_add_untouched (localClass : Bool) (name : Algo) (db : Db) (st : Store)
+    (xs : List (Oid × Option (Bytes × Stamp))) (oid : Oid) (h : ∀ x ∈ xs, x.1 = oid → x.2 = none) :
+    (addBatch localClass name db st xs).2.1.lookup oid = st.lookup oid ∧
+    (addBatch localClass name db st xs).2.2.lookup oid = db.lookup oid :=
+  foldl_addOne_untouched localClass name oid xs ([], st, db) h
+
+example : (addBatch true "md5" [] [("x", { data := [1], prot := false, stamp := ⟨1, 1, 1⟩ })]
+    [("x", none), ("y", some ([2], ⟨2, 2, 1⟩))]).1 = ["x"] := by decide
+
+/-- the verdict of an integrity check depends only on the object's own file and hash-state row -/
+theorem check_verdict_congr (H : Algo → Bytes → Digest) (localClass : Bool) (name : Algo) (db db' : Db) (st st' : Store)
+    (oid : Oid) (hs : st'.lookup oid = st.lookup oid) (hd : db'.lookup oid = db.lookup oid) :
+    (check H localClass name db' st' oid).1 = (check H localClass name db st oid).1 := by
+  have hf : (fsOf st').lookup oid = (fsOf st).lookup oid := by rw [fsOf_lookup, fsOf_lookup, hs]
+  have hg : State.get db' (fsOf st') true oid = State.get db (fsOf st) true oid := by
+    unfold State.get; rw [hd, hf]
+  unfold check
+  rw [hs]
+  cases ho : st.lookup oid with
+  | none => rfl
+  | some o =>
+    simp only
+    split
+    · rfl
+    · have hv : (hashFile H db' (fsOf st') true oid name).map (·.1) = (hashFile H db (fsOf st) true oid name).map (·.1) := by
+        unfold hashFile
+        rw [hf, hg]
+        cases (fsOf st).lookup oid with
+        | none => rfl
+        | some n =>
+          simp only
+          cases State.get db (fsOf st) true oid with
+          | none => rfl
+          | some av =>
+            obtain ⟨a, v⟩ := av
+            simp only
+            split <;> rfl
+      cases h1 : hashFile H db' (fsOf st') true oid name with
+      | none =>
+        rw [h1] at hv
+        cases h2 : hashFile H db (fsOf st) true oid name with
+        | none => rfl
+        | some r => rw [h2] at hv; cases hv
+      | some r' =>
+        rw [h1] at hv
+        cases h2 : hashFile H db (fsOf st) true oid name with
+        | none => rw [h2] at hv; cases hv
+        | some r =>
+          rw [h2] at hv
+          obtain ⟨v', d'⟩ := r'
+          obtain ⟨v, d⟩ := r
+          simp only [Option.map_some, Option.some.injEq] at hv
+          subst hv
+          simp only
+          split <;> rfl
+
+/-- **C07 (failed adds).** Whatever else a batch adds, an object all of whose copies failed gets the same verdict from the
+    integrity check afterwards as before: a tampered, unprotected object is not turned into a valid one by a failing add. -/
+theorem failed_add_same_verdict (H : Algo → Bytes → Digest) (localClass : Bool) (name : Algo) (db : Db) (st : Store)
+    (xs : List (Oid × Option (Bytes × Stamp))) (oid : Oid) (h : ∀ x ∈ xs, x.1 = oid → x.2 = none) :
+    (check H localClass name (addBatch localClass name db st xs).2.2 (addBatch localClass name db st xs).2.1 oid).1 =
+      (check H localClass name db st oid).1 := by
+  obtain ⟨h1, h2⟩ := failed_add_untouched localClass name db st xs oid h
+  exact check_verdict_congr H localClass name db _ st _ oid h1 h2
+
 /-! non-vacuity -/
 example : strip "abc.dir" = "abc" ∧ strip "abc" = "abc" := by decide
 
